@@ -2,9 +2,6 @@
 pub fn simplest_in(mut lower: Self, mut upper: Self) -> Self
 /*@ requires
         lower.denominator.v() > 0, upper.denominator.v() > 0,
-        // EXCLUDED REGION (genuine defect, see the registry fragment): one end point zero, the other negative -- the real
-        // function returns 0, which is not strictly inside
-        !(lower.numerator.v() == 0 && upper.numerator.v() < 0), !(upper.numerator.v() == 0 && lower.numerator.v() < 0),
     ensures
         ret.denominator.v() >= 1,
         // equal end points (empty open interval): documented to return that number
@@ -17,12 +14,15 @@ pub fn simplest_in(mut lower: Self, mut upper: Self) -> Self
 @*/
 {
     /*@ let ghost (ln, ld, un, ud) = (lower.numerator.v(), lower.denominator.v(), upper.numerator.v(), upper.denominator.v()); @*/
-    let sign = if lower.numerator.sign() != upper.numerator.sign() {
+    // a zero end point takes the sign of the other end point
+    let sign = if lower.numerator.is_zero() {
+        upper.numerator.sign()
+    } else if upper.numerator.is_zero() || lower.numerator.sign() == upper.numerator.sign() {
+        lower.numerator.sign()
+    } else {
         // if lower < 0 < upper, then 0 is the simplest
         /*@ proof { lemma_simplest_zero(ln, ld, un, ud); } @*/
         return Self::zero();
-    } else {
-        lower.numerator.sign()
     };
     lower = lower.abs();
     upper = upper.abs();
